@@ -163,7 +163,7 @@ int main(int argc, char **argv) {
         })));
         return c;
     });
-    bool ok = run_cases(a, ev, "c10-pairs", a.n(30000, 400000), 100, gen, run);
+    bool ok = run_cases(a, ev, "c10-pairs", a.n(120000, 800000), 100, gen, run);
     ev.write(a.out);
     return ok ? 0 : 1;
 }
